@@ -787,8 +787,22 @@ func genC02(g *Gen) {
 		c.add("string", one(c.str(n)), 0, n < 300 || n == 4092 || n == 8188)
 		c.add("string", one(c.str(n)), 2, false)
 	}
-	for _, n := range []int{16381, 70000} {
+	for _, n := range []int{16381, 70000, 65535, 65536, 65537, 131072} { // exact multiples of 64 KiB included
 		c.add("bigstring", one(c.str(n)), 2, false)
+	}
+	// fast-path containers whose payload is an exact multiple of 64 KiB (and its neighbours)
+	for _, n := range []int{8191, 8192, 8193, 16384} {
+		c.add("list-fast-64k", one(&c02Val{T: 15, KT: 10, Elems: c.rep(c02Scalar(10, c.u(10)), n)}), 2, false)
+	}
+	{
+		kv := [2]*c02Val{c02Scalar(10, c.u(10)), c02Scalar(4, c.u(4))}
+		m := &c02Val{T: 13, KT: 10, VT: 4}
+		for i := 0; i < 4096; i++ {
+			m.KVs = append(m.KVs, kv)
+		}
+		c.add("map-fast-64k", one(m), 2, false)
+		c.add("struct-set-64k", one(&c02Val{T: 12, Fields: []c02Field{{8, 1, c02Scalar(8, 5)},
+			{14, 2, &c02Val{T: 14, KT: 8, Elems: c.rep(c02Scalar(8, c.u(8)), 16384)}}, {10, 3, c02Scalar(10, 9)}}}), 2, false)
 	}
 	// a few long streams under fine-grained fragmentation (expensive in the models)
 	c.addS("string-fine", one(c.str(4097)), 2, false, "bytewise+eof")
